@@ -564,3 +564,175 @@ Proof.
   exists f', seen, inp. split; [exact Hr|]. destruct (ss_submit s && nonemptyb inp); split; intros; congruence.
 Qed.
 
+(* ---------- navigation refines the array-of-texts spec ---------- *)
+
+Definition shown (h : hist) (i : nat) : str :=
+  match assoc i (h_modified h) with Some s => s | None => nth i (h_lines h) [] end.
+
+(* what the user would see at position i: the live input under the cursor, the remembered text elsewhere *)
+Definition view (st : sess) (i : nat) : str :=
+  if Nat.eqb i (h_cursor (s_hist st)) then s_input st else shown (s_hist st) i.
+
+Definition abs_nav (st : sess) : nav := mkNav (view st) (h_cursor (s_hist st)) (length (h_lines (s_hist st)) - 1).
+
+Definition nav_eq (a b : nav) : Prop :=
+  nv_cur a = nv_cur b /\ nv_last a = nv_last b /\ forall i, (i <= nv_last a)%nat -> nv_text a i = nv_text b i.
+
+Definition op_of (o : sop) : nav_op := match o with Edit s => NEdit s | Prev => NPrev | Next => NNext end.
+
+(* extra invariant: modified entries exist only below the scratch line *)
+Definition mod_below (st : sess) : Prop :=
+  Forall (fun kv => (fst kv < length (h_lines (s_hist st)) - 1)%nat) (h_modified (s_hist st)).
+
+Lemma assoc_none_below k m n : Forall (fun kv : nat * str => (fst kv < n)%nat) m -> (n <= k)%nat -> assoc k m = None.
+Proof.
+  induction m as [|[k' v] m IH]; intros H Hk; cbn; [reflexivity|]. inversion H; subst. cbn in *.
+  destruct (Nat.eqb_spec k k'); [lia|auto].
+Qed.
+
+Lemma get_nth {A} (l : list A) i x d : get l i = Ok x -> nth i l d = x.
+Proof. revert i; induction l as [|a l IH]; intros [|i]; cbn; try discriminate; [intros E; now inversion E|apply IH]. Qed.
+
+Lemma set_nth_nth {A} (l l' : list A) i v d : set_nth l i v = Ok l' ->
+  length l' = length l /\ forall j, nth j l' d = if Nat.eqb j i then v else nth j l d.
+Proof.
+  revert i l'; induction l as [|a l IH]; intros [|i] l'; cbn; try discriminate.
+  - intros E; inversion E; subst. split; [reflexivity|]. intros [|j]; reflexivity.
+  - destruct (set_nth l i v) as [t|] eqn:E; cbn; [|discriminate]. intros E'; inversion E'; subst.
+    destruct (IH _ _ E) as [Hl Hn]. split; [cbn; now rewrite Hl|]. intros [|j]; cbn; [reflexivity|apply Hn].
+Qed.
+
+(* h.override(t) at the cursor: afterwards position cursor shows t, every other position is unchanged *)
+Lemma override_shown h t h' : h_override h t = Ok h' ->
+  Forall (fun kv => (fst kv < length (h_lines h) - 1)%nat) (h_modified h) ->
+  (h_cursor h <= length (h_lines h) - 1)%nat -> (0 < length (h_lines h))%nat ->
+  h_cursor h' = h_cursor h /\ length (h_lines h') = length (h_lines h) /\
+  Forall (fun kv => (fst kv < length (h_lines h') - 1)%nat) (h_modified h') /\
+  forall i, shown h' i = if Nat.eqb i (h_cursor h) then t else shown h i.
+Proof.
+  unfold h_override. intros E Hm Hc Hlen.
+  destruct (Nat.eqb_spec (h_cursor h) (length (h_lines h) - 1)) as [Eq|Ne].
+  - destruct (set_nth (h_lines h) (h_cursor h) t) as [ls|] eqn:Es; cbn in E; [|discriminate].
+    inversion E; subst; cbn. destruct (set_nth_nth _ _ _ _ [] Es) as [Hl Hn].
+    split; [reflexivity|]. split; [exact Hl|]. split. { eapply Forall_impl; [|exact Hm]. intros kv Hkv. cbn beta in *. unfold str in *. lia. }
+    intros i. unfold shown; cbn.
+    destruct (Nat.eqb_spec i (h_cursor h)) as [Ei|Ei].
+    + subst i. rewrite (assoc_none_below _ _ _ Hm) by lia. rewrite Hn, Nat.eqb_refl. reflexivity.
+    + destruct (assoc i (h_modified h)); [reflexivity|]. rewrite Hn.
+      destruct (Nat.eqb_spec i (h_cursor h)); [contradiction|reflexivity].
+  - destruct (Nat.ltb_spec (h_cursor h) (length (h_lines h) - 1)) as [Hlt|Hge]; [|lia].
+    inversion E; subst; cbn. split; [reflexivity|]. split; [reflexivity|].
+    split; [constructor; [cbn; lia|assumption]|].
+    intros i. unfold shown; cbn. destruct (Nat.eqb i (h_cursor h)); reflexivity.
+Qed.
+
+Lemma current_shown h s : h_current h = Ok s -> shown h (h_cursor h) = s.
+Proof.
+  unfold h_current, shown. destruct (assoc _ _); [intros E; now inversion E|]. apply get_nth.
+Qed.
+
+
+Lemma view_after_move st h1 h2 s2 seen :
+  (forall i, shown h1 i = if Nat.eqb i (h_cursor (s_hist st)) then s_input st else shown (s_hist st) i) ->
+  (forall i, shown h2 i = shown h1 i) -> shown h2 (h_cursor h2) = s2 ->
+  forall i, view (mkSess h2 s2 seen) i = view st i.
+Proof.
+  intros S1 S2 E2 i. unfold view; cbn.
+  destruct (Nat.eqb_spec i (h_cursor h2)) as [Ei|Ei].
+  - subst i. rewrite <- E2, S2, S1. reflexivity.
+  - rewrite S2, S1. reflexivity.
+Qed.
+
+Theorem nav_step_refines_proof st o st' : sess_step st o = Ok st' -> mod_below st ->
+  (h_cursor (s_hist st) <= length (h_lines (s_hist st)) - 1)%nat -> (0 < length (h_lines (s_hist st)))%nat ->
+  nav_eq (abs_nav st') (nav_step (abs_nav st) (op_of o)) /\ mod_below st' /\
+  (h_cursor (s_hist st') <= length (h_lines (s_hist st')) - 1)%nat /\ (0 < length (h_lines (s_hist st')))%nat /\
+  (match o with Edit _ => True | _ => s_input st' = view st' (h_cursor (s_hist st')) /\ hd [] (s_seen st') = s_input st' end).
+Proof.
+  intros E Hm Hc Hl. destruct o as [s| |]; cbn [sess_step] in E.
+  - inversion E; subst; clear E. unfold nav_eq, abs_nav, view, mod_below; cbn.
+    repeat split; auto. intros i _. destruct (Nat.eqb i (h_cursor (s_hist st))); reflexivity.
+  - destruct (h_override _ _) as [h1|] eqn:E1; [|discriminate]. cbn [bind] in E.
+    destruct (override_shown _ _ _ E1 Hm Hc Hl) as [C1 [L1 [M1 S1]]].
+    unfold h_previous in E.
+    set (h2 := if Nat.ltb 0 (h_cursor h1) then _ else h1) in E.
+    assert (P2 : h_lines h2 = h_lines h1 /\ h_modified h2 = h_modified h1 /\ h_cursor h2 = Nat.pred (h_cursor h1)).
+    { unfold h2. destruct (Nat.ltb_spec 0 (h_cursor h1)); cbn; repeat split; auto; lia. }
+    destruct P2 as [P2l [P2m P2c]].
+    destruct (h_current h2) as [s2|] eqn:E2; [|discriminate]. cbn [bind fst snd] in E. inversion E; subst; clear E.
+    apply current_shown in E2.
+    assert (Sh2 : forall i, shown h2 i = shown h1 i) by (intros i; unfold shown; now rewrite P2l, P2m).
+    pose proof (view_after_move st h1 h2 s2 (s2 :: s_seen st) S1 Sh2 E2) as V.
+    split; [|split; [|split; [|split]]].
+    + unfold nav_eq, abs_nav; cbn. rewrite P2l, P2c, L1, C1. repeat split; auto.
+    + unfold mod_below; cbn. now rewrite P2l, P2m.
+    + cbn. rewrite P2l, P2c, L1, C1. lia.
+    + cbn. rewrite P2l, L1. assumption.
+    + cbn. split; [|reflexivity]. unfold view; cbn. now rewrite Nat.eqb_refl.
+  - destruct (h_override _ _) as [h1|] eqn:E1; [|discriminate]. cbn [bind] in E.
+    destruct (override_shown _ _ _ E1 Hm Hc Hl) as [C1 [L1 [M1 S1]]].
+    unfold h_next in E.
+    set (h2 := if Nat.ltb (h_cursor h1) _ then _ else h1) in E.
+    assert (P2 : h_lines h2 = h_lines h1 /\ h_modified h2 = h_modified h1 /\
+                 h_cursor h2 = if Nat.ltb (h_cursor h1) (length (h_lines h1) - 1) then S (h_cursor h1) else h_cursor h1).
+    { unfold h2. destruct (Nat.ltb (h_cursor h1) (length (h_lines h1) - 1)); cbn; repeat split; auto. }
+    destruct P2 as [P2l [P2m P2c]].
+    destruct (h_current h2) as [s2|] eqn:E2; [|discriminate]. cbn [bind fst snd] in E. inversion E; subst; clear E.
+    apply current_shown in E2.
+    assert (Sh2 : forall i, shown h2 i = shown h1 i) by (intros i; unfold shown; now rewrite P2l, P2m).
+    pose proof (view_after_move st h1 h2 s2 (s2 :: s_seen st) S1 Sh2 E2) as V.
+    split; [|split; [|split; [|split]]].
+    + unfold nav_eq, abs_nav; cbn. rewrite P2l, P2c, L1, C1. repeat split; auto.
+    + unfold mod_below; cbn. now rewrite P2l, P2m.
+    + cbn. rewrite P2l, P2c, L1, C1. destruct (Nat.ltb_spec (h_cursor (s_hist st)) (length (h_lines (s_hist st)) - 1)); lia.
+    + cbn. rewrite P2l, L1. assumption.
+    + cbn. split; [|reflexivity]. unfold view; cbn. now rewrite Nat.eqb_refl.
+Qed.
+
+(* whole sessions: the abstraction of the final state is the spec fold of the operations *)
+Fixpoint nav_steps (n : nav) (ops : list sop) : nav :=
+  match ops with [] => n | o :: r => nav_steps (nav_step n (op_of o)) r end.
+
+Lemma nav_step_eq a b o : nav_eq a b -> nav_eq (nav_step a o) (nav_step b o).
+Proof.
+  intros [Hc [Hl Ht]]. destruct o; unfold nav_eq; cbn; rewrite <- ?Hc, <- ?Hl; repeat split; auto.
+  intros i Hi. destruct (Nat.eqb i (nv_cur a)); auto.
+Qed.
+
+Lemma nav_steps_eq ops : forall a b, nav_eq a b -> nav_eq (nav_steps a ops) (nav_steps b ops).
+Proof. induction ops as [|o ops IH]; intros a b H; cbn; [exact H|]. apply IH. now apply nav_step_eq. Qed.
+
+Lemma nav_eq_trans a b c : nav_eq a b -> nav_eq b c -> nav_eq a c.
+Proof.
+  intros [H1 [H2 H3]] [G1 [G2 G3]]. unfold nav_eq. repeat split; try congruence.
+  intros i Hi. rewrite H3 by assumption. apply G3. now rewrite <- H2.
+Qed.
+
+Theorem nav_refines_spec_proof ops : forall st st', sess_steps st ops = Ok st' -> mod_below st ->
+  (h_cursor (s_hist st) <= length (h_lines (s_hist st)) - 1)%nat -> (0 < length (h_lines (s_hist st)))%nat ->
+  nav_eq (abs_nav st') (nav_steps (abs_nav st) ops).
+Proof.
+  induction ops as [|o ops IH]; intros st st' E Hm Hc Hl; cbn in E.
+  - inversion E; subst. unfold nav_eq. repeat split; auto.
+  - destruct (sess_step st o) as [s1|] eqn:E1; [|discriminate]. cbn in E.
+    destruct (nav_step_refines_proof _ _ _ E1 Hm Hc Hl) as [R [Hm1 [Hc1 [Hl1 _]]]].
+    cbn [nav_steps]. eapply nav_eq_trans; [apply (IH _ _ E Hm1 Hc1 Hl1)|]. now apply nav_steps_eq.
+Qed.
+
+Theorem nav_refines_loaded_proof max file ops h f st' :
+  new_history file max = Ok (h, f) -> sess_steps (mkSess h [] []) ops = Ok st' ->
+  nav_eq (abs_nav st') (nav_steps (abs_nav (mkSess h [] [])) ops) /\
+  nv_cur (abs_nav (mkSess h [] [])) = length (fs_entries file) /\
+  forall i, (i < length (fs_entries file))%nat -> nv_text (abs_nav (mkSess h [] [])) i = nth i (fs_entries file) [].
+Proof.
+  intros Hn Hs. destruct (load_exact_lemma file max) as [h0 [H0 [Hl [Hc [Hm _]]]]].
+  rewrite Hn in H0. inversion H0; subst h0. clear H0.
+  split.
+  - apply nav_refines_spec_proof; auto; unfold mod_below; cbn.
+    + rewrite Hm. constructor.
+    + rewrite Hl, Hc, app_length. cbn. lia.
+    + rewrite Hl, app_length. cbn. lia.
+  - split; [cbn; exact Hc|]. intros i Hi. cbn. unfold view; cbn. rewrite Hc.
+    unfold fs_entries in *. destruct (Nat.eqb i (length (entries (fs_data file)))) eqn:Ee; [apply Nat.eqb_eq in Ee; lia|].
+    unfold shown. rewrite Hm. cbn. rewrite Hl. unfold fs_entries in *. rewrite app_nth1 by assumption. reflexivity.
+Qed.
